@@ -92,6 +92,12 @@ register(Contract(
         'shape': lambda a, r: z3.And(r.ndim == 2, r.dim(0) == a.metric.dim(0), r.dim(1) == a.metric.dim(1)),
         'real-float-dtype': lambda a, r: z3.BoolVal(r.kind == 'f'),
         'fresh': lambda a, r: z3.BoolVal(len(r.owner) == 0),
+        # value level (the headline of C20): for a symmetric positive semi-definite M the returned L satisfies L^T L = M -- on every branch
+        # (diagonal: Lean diag_sqrt_clip_gram; Cholesky: numpy's contract; eigh fallback: Lean eig_factor_gram_clip + eigh's contract)
+        'LtL-equals-M-for-symmetric-PSD-M': lambda a, r: z3.BoolVal(False) if r.term is None else
+            z3.Implies(z3.And(a.metric.term == TH.tr(a.metric.term), TH.psd(a.metric.term)), TH.mm(TH.tr(r.term), r.term) == a.metric.term),
+        # and in general L^T L is M with its negative eigenvalues (those within the tolerance) replaced by zero
+        'LtL-is-M-with-negative-eigenvalues-clipped': lambda a, r: z3.BoolVal(False) if r.term is None else _cfm_clip(a, r),
     },
     raises={'ValueError': OnlyIf(lambda a: z3.Or(z3.Not(TH.allclose(a.metric.term, TH.tr(a.metric.term))), z3.BoolVal(a.tol is not None) if a.tol is None else a.tol < 0)),
             'NonPSDError': May(), 'LinAlgError': May()},
@@ -100,6 +106,16 @@ register(Contract(
     modifies=set(), prop=['C03', 'C17', 'C20']))
 C.unit('C20', '_util:components_from_metric')
 C.unit('C03', '_util:components_from_metric')
+
+
+def _cfm_clip(a, r):
+  Mt = a.metric.term
+  g = TH.mm(TH.tr(r.term), r.term)
+  zero = z3.RealVal(0)
+  return z3.Implies(Mt == TH.tr(Mt), z3.Or(
+      g == Mt,                                                                                       # Cholesky branch (M positive definite)
+      z3.And(TH.array_equal(Mt, TH.diagm(TH.diagv(Mt))), g == TH.diagm(TH.maximum_s(zero, TH.diagv(Mt)))),   # diagonal M
+      g == TH.mm(TH.colscale(TH.eigvecs(Mt), TH.maximum_s(zero, TH.eigvals(Mt))), TH.tr(TH.eigvecs(Mt)))))   # V max(0, w) V^T
 
 
 def _tol_forwarded(a, ev):
